@@ -1,6 +1,5 @@
 (* C04/PathProofs.v — path / polygon (known finding D10) and type names. *)
 Require Import PG.Base.Bytes PG.Base.GoSlice PG.Base.Value PG.C04.Lib PG.C04.Model PG.C04.Spec PG.C04.LibProofs.
-Set Default Timeout 120.
 
 Section P.
   Variable fmt_g : Z -> bytes.
